@@ -111,10 +111,49 @@ def gen(rng, big=False):
     return ops
 
 
+def gen_pending(rng):
+    """Shutdown is called (on its own goroutine, as AppHarvest.Close does) while the worker is inside send() with batches
+    queued behind it; sends complete, more batches arrive, the sender fails - all while the call is still waiting; then its
+    time-out expires (or the worker has left before) and whatever is still in flight completes afterwards"""
+    q = rng.choice([2, 3, 4, 5, 8, 12])
+    ops = ["spanq new %d" % q, "spanq connect ok"]
+    if rng.random() < 0.4:
+        # several batches wait behind the send in flight; it completes while the call waits (the worker then has both the queue
+        # and the shutdown signal to choose from); the time-out expires during the NEXT send; the sends after that complete
+        for _ in range(rng.randint(3, q + 1)):
+            ops.append("spanq batch 1")
+        ops += ["spanq shutbegin", "spanq send ok"]
+        if rng.random() < 0.3:
+            ops.append("spanq send ok")
+        ops.append("spanq shutend")
+        ops += ["spanq send ok"] * rng.randint(1, 4)
+        ops += ["spanq shutdown", "spanq send ok", "spanq connect ok", "spanq batch 1"]
+        return ops
+    for _ in range(rng.randint(1, min(q, 4))):
+        ops.append("spanq batch 1")
+    ops.append("spanq shutbegin")
+    for _ in range(rng.randint(0, 4)):
+        k = rng.random()
+        if k < 0.55:
+            ops.append("spanq send " + rng.choice(["ok", "ok", "ok", "ok", "immediate", "restart", "shutdown"]))
+        elif k < 0.75:
+            ops.append("spanq batch %d" % rng.choice([1, 1, 2, q]))
+        elif k < 0.9:
+            ops.append("spanq connect " + rng.choice(["ok", "ok", "restart", "shutdown"]))
+        else:
+            ops.append("spanq shutdown")          # a second, concurrent call is not modelled: a no-op while one is waiting
+    ops.append("spanq shutend")
+    for _ in range(rng.randint(1, 4)):
+        ops.append("spanq " + rng.choice(["send ok", "send ok", "send ok", "connect ok", "batch 1", "send restart"]))
+    ops += ["spanq shutdown", "spanq send ok", "spanq connect ok", "spanq send ok", "spanq batch 1"]
+    return ops
+
+
 def plan(ctx):
     rng, tier = ctx["rng"], ctx["tier"]
     n = 120 if tier == "quick" else 3000
     seqs = [("sq%d" % i, gen(rng, big=(i % 17 == 16))) for i in range(n)]
+    seqs += [("sp%d" % i, gen_pending(rng)) for i in range(n // 2)]
     return [("corpus", corpus(ID)), ("gen", seqs)]
 
 
